@@ -265,13 +265,21 @@ def main():
         changed.append("Tables.lean")
     if write_if_changed(os.path.join(GEN, "LexRules.lean"), render_lexrules(rules)):
         changed.append("LexRules.lean")
+    fp = None
+    try:
+        import translate_fp
+        fp = translate_fp.extract(REPO, table)
+        if write_if_changed(os.path.join(GEN, "Footprint.lean"), translate_fp.render(fp, lean_list, lean_str)):
+            changed.append("Footprint.lean")
+    except Exception as e:  # noqa
+        problems.append("footprint: %r" % (e,))
     try:
         import translate_ms
         changed += translate_ms.emit(GEN, write_if_changed, problems)
     except ImportError:
         pass
     gj = {"table": table, "unreachable": unreachable, "lexrules": rules, "problems": problems,
-          "table_wire": [enc_def(d) for d in table], "digests": source_digests(), "changed": changed}
+          "footprint": fp, "table_wire": [enc_def(d) for d in table], "digests": source_digests(), "changed": changed}
     with open(os.path.join(VERIF, ".cache", "generated.json"), "w") as f:
         json.dump(gj, f, indent=1)
     print(json.dumps({"changed": changed, "problems": problems, "commands": len(table), "unreachable": unreachable}))
